@@ -154,11 +154,82 @@ pub fn emit_webp<W: Write>(out: &mut W, id: &str, s: &Sparse, allow: bool, dims:
     writeln!(out, "C10 id={id} san=webp {} allow={} dims={}x{} res={} read={} peak={}", s.line(), allow as u8, dims.0, dims.1, r.0, r.1, r.2).unwrap();
 }
 
+/// a valid stream declaring w x h whose meta prefix image (block 4) costs one bit per pixel: the validator consumes
+/// (w/4)*(h/4)/8 bytes through its fixed bit buffer
+pub fn one_bit_per_pixel_vp8l(rng: &mut Rng, w: u32, h: u32) -> Vec<u8> {
+    let mut bw = BitWriter::new();
+    bw.bits(0x2f, 8);
+    bw.bits(w - 1, 14);
+    bw.bits(h - 1, 14);
+    bw.bit(false);
+    bw.bits(0, 3);
+    bw.bit(false); // no transform
+    bw.bit(false); // no colour cache
+    bw.bit(true); // meta prefix codes
+    bw.bits(0, 3); // block size 4
+    bw.bit(false); // entropy image: no colour cache
+    // green: simple code with the two symbols 0 and 1 (one bit per pixel); red, blue, alpha, distance: one symbol
+    bw.bit(true);
+    bw.bit(true);
+    bw.bit(false);
+    bw.bits(0, 1);
+    bw.bits(1, 8);
+    for _ in 0..4 {
+        bw.bit(true);
+        bw.bit(false);
+        bw.bit(false);
+        bw.bit(false);
+    }
+    let px = ((w + 3) / 4) as u64 * ((h + 3) / 4) as u64;
+    let mut left = px;
+    while left >= 32 {
+        bw.bits(rng.next() as u32, 32);
+        left -= 32;
+    }
+    for _ in 0..left {
+        bw.bit(rng.chance(1, 2));
+    }
+    // two prefix-code groups for the main image
+    for _ in 0..10 {
+        bw.bit(true);
+        bw.bit(false);
+        bw.bit(false);
+        bw.bit(false);
+    }
+    let mut b = bw.bytes;
+    b.extend_from_slice(&[0; 4]);
+    b
+}
+
+/// peak heap of webpsan over streams of the same shape and growing size (one line for the whole family)
+pub fn emit_webp_scale<W: Write>(out: &mut W, id: &str, rng: &mut Rng, dims: &[(u32, u32)]) {
+    let mut rs = vec![];
+    for &(w, h) in dims {
+        let f = riff(&[chunk(b"VP8L", &one_bit_per_pixel_vp8l(rng, w, h))]);
+        let r = crate::quiet(AssertUnwindSafe(|| {
+            let cfg = webpsan::Config::default();
+            let mut c = std::io::Cursor::new(&f);
+            let (o, peak) = measure_heap(|| wcanon(webpsan::sanitize_with_config(&mut c, cfg)).text());
+            (o, peak)
+        }))
+        .unwrap_or(("panic".into(), 0));
+        rs.push(format!("{w}x{h}:{}:{}:{}", f.len(), r.0, r.1));
+    }
+    writeln!(out, "C10 id={id} san=webpscale len=0 ext=- runs={}", rs.join(";")).unwrap();
+}
+
 pub fn replay<W: Write>(line: &str, out: &mut W) {
     let get = |k: &str| line.split(' ').find_map(|t| t.strip_prefix(&format!("{k}=")).map(|s| s.to_string()));
     let s = Sparse::parse_line(&get("len").unwrap(), &get("ext").unwrap());
     let id = get("id").unwrap_or("replay".into());
-    if get("san").as_deref() == Some("webp") {
+    if get("san").as_deref() == Some("webpscale") {
+        let dims: Vec<(u32, u32)> = get("runs").unwrap_or_default().split(';').filter_map(|t| {
+            let d = t.split(':').next()?;
+            let mut it = d.split('x').map(|x| x.parse().unwrap_or(1));
+            Some((it.next()?, it.next()?))
+        }).collect();
+        emit_webp_scale(out, &id, &mut Rng::new(1), &dims);
+    } else if get("san").as_deref() == Some("webp") {
         let d = get("dims").unwrap_or("0x0".into());
         let mut it = d.split('x').map(|x| x.parse().unwrap_or(0));
         emit_webp(out, &id, &s, get("allow").as_deref() == Some("1"), (it.next().unwrap_or(0), it.next().unwrap_or(0)));
@@ -395,6 +466,11 @@ pub fn run<W: Write>(opts: &Opts, out: &mut W) {
             continue;
         }
         emit_webp(out, name, &Sparse::from_bytes(f), false, *dims);
+    }
+    // the same stream shape at growing sizes: the peak heap must not follow the number of bytes validated
+    if opts.mine(3) {
+        let dims: &[(u32, u32)] = if opts.tier_thorough { &[(64, 64), (256, 256), (1024, 1024), (4096, 4096), (8192, 8192), (16384, 16384)] } else { &[(64, 64), (256, 256), (1024, 1024), (4096, 4096), (8192, 4096)] };
+        emit_webp_scale(out, "webp-scale", &mut rng.fork(77), dims);
     }
     // chunk sizes: huge declared (virtual) chunks that are skipped, never read
     for (k, sz) in [(0u64, 1u64 << 20), (1, 1 << 28), (2, (1u64 << 32) - 30)].iter() {
